@@ -28,8 +28,9 @@ Desc(n) == [i \in 1..n |-> n + 1 - i]
 Injective(f) == \A a \in DOMAIN f : \A b \in DOMAIN f : a # b => f[a] # f[b]
 Mono(f) == (\A i \in 1..(Len(f) - 1) : f[i] <= f[i + 1]) \/ (\A i \in 1..(Len(f) - 1) : f[i] >= f[i + 1])
 
-\* queries: 0.5, 1, 1.5, ... , max + 1 (all training abscissae, all midpoints, one point on either side)
-Queries(mx) == [j \in 1..(2 * mx + 2) |-> j]
+\* queries: 0.5, 1, 1.5, ... , max + 1 (all training abscissae, all midpoints, one point on either side), not in
+\* ascending order: the odd doubled values ascending, then the even ones descending
+Queries(mx) == [j \in 1..(2 * mx + 2) |-> IF j <= mx + 1 THEN 2 * j - 1 ELSE 2 * (2 * mx + 3 - j)]
 
 MaxOf(x) == CHOOSE m \in {x[i] : i \in DOMAIN x} : \A i \in DOMAIN x : x[i] <= m
 Fit(x, y, w, ty) == [kind |-> "fit", inp |-> [x |-> x, y |-> y, w |-> w, q |-> Queries(MaxOf(x)), ty |-> ty]]
